@@ -3,7 +3,7 @@
    trivia on the blanks the printer emits, the separated loops on printed lists, check_recursion. *)
 From TV Require Import Base.Prelude Base.Utf8 Base.Winnow Gen.Consts.
 From TV Require Import Model.Trivia Model.Strings Model.Datetime Model.Numbers Model.Tree Model.Parse.
-From TV Require Import Proofs.StringsRTDefs Proofs.StringsRTBase.
+From TV Require Import Proofs.StringsRTDefs Proofs.StringsRTBase Proofs.StringsRTMlLit.
 Require Import Lia ZifyBool ZifyN ZifyNat.
 
 (* q reads exactly t in front of r (at any offset, at nesting depth d) and its result satisfies Q *)
@@ -97,6 +97,48 @@ Proof.
   destruct r as [|b r]; [reflexivity|]. destruct Hr as (_ & H1 & H2 & H3). rewrite H1, H2, H3. reflexivity.
 Qed.
 
+(* a line break and an indentation of k spaces (the multi-line array layout: k = 4 before an element, k = 0
+   before the closing bracket) *)
+Lemma spaces_ws k : forallb (in_class WSCHAR) (repeat x20 k) = true.
+Proof. induction k as [|k IH]; [reflexivity|]. cbn [repeat forallb]. rewrite IH. reflexivity. Qed.
+Lemma spaces_utf8 k : utf8_valid_b (repeat x20 k) = true.
+Proof. induction k as [|k IH]; [reflexivity|]. cbn [repeat]. rewrite utf8_cons_ascii by (cbn; lia). exact IH. Qed.
+
+Lemma ws_spaces k r p d : stops (in_class WSCHAR) r ->
+  ws (mkIn (repeat x20 k ++ r) p d) = Ok (repeat x20 k) (after (repeat x20 k) r p d).
+Proof.
+  intro Hr. unfold ws, unchecked_utf8, take_while0.
+  rewrite (take_while_yes 0 (in_class WSCHAR) (repeat x20 k) r p d (spaces_ws k) Hr (Nat.le_0_l _)).
+  rewrite spaces_utf8. reflexivity.
+Qed.
+
+Definition nl_blank (k : nat) : bytes := x0a :: repeat x20 k.
+
+Lemma wscn_f_nl f start X p d :
+  ws_comment_newline_f (S f) start (mkIn (x0a :: X) p d)
+  = if ((p + 1)%N =? start)%N then Ok tt (mkIn X (p + 1)%N d) else ws_comment_newline_f f (p + 1)%N (mkIn X (p + 1)%N d).
+Proof.
+  cbn [ws_comment_newline_f]. rewrite (ws_none (x0a :: X) p d) by reflexivity. cbn [rest].
+  change (byte_eqb x0a x23) with false. change (byte_eqb x0a x0a) with true. cbv iota.
+  rewrite newline_lf. cbn [pos]. reflexivity.
+Qed.
+
+Lemma wscn_f_spaces f start k r p d : wscn_stop r ->
+  ws_comment_newline_f (S f) start (mkIn (repeat x20 k ++ r) p d) = Ok tt (after (repeat x20 k) r p d).
+Proof.
+  intro Hr. cbn [ws_comment_newline_f]. rewrite (ws_spaces k r p d (wscn_stop_ws r Hr)). unfold after. cbn [rest].
+  destruct r as [|b r']; [reflexivity|]. destruct Hr as (_ & H1 & H2 & H3). rewrite H1, H2, H3. reflexivity.
+Qed.
+
+Lemma pto_wscn_nl k r d : wscn_stop r -> pto ws_comment_newline (nl_blank k) r d (fun _ => True).
+Proof.
+  intros Hr p. unfold nl_blank.
+  exists tt, (p + 1 + N.of_nat (length (repeat x20 k)))%N. split; [|exact I].
+  unfold ws_comment_newline. cbn [rest app length pos].
+  rewrite wscn_f_nl. replace ((p + 1 =? p)%N) with false by (symmetry; apply N.eqb_neq; lia).
+  rewrite (wscn_f_spaces _ _ k r (p + 1)%N d Hr). reflexivity.
+Qed.
+
 (* ---- check_recursion ---------------------------------------------------------------------------------- *)
 Lemma pto_check_recursion {A} (q : parser A) t r d (Q : A -> Prop) :
   S d < LIMIT -> pto q t r (S d) Q -> pto (check_recursion q) t r d Q.
@@ -147,6 +189,48 @@ Section SepLoop.
       exists (a :: res), p2. split.
       + rewrite E2. cbn [rev]. rewrite <- app_assoc. reflexivity.
       + constructor; assumption.
+  Qed.
+
+  (* the same when a separator FOLLOWS the last element and the element parser backtracks on what comes after it
+     (a trailing comma): the loop gives the separator back *)
+  Definition bt_after (R : bytes) : Prop := forall p, exists e i', q (mkIn R p d) = Bt e i'.
+
+  Lemma separated_loop_segs_tr l R :
+    Forall seg_parses l -> bt_after R ->
+    forall fuel acc p, length (segs_txt l ++ sepb :: R) < fuel ->
+    exists res p', separated_loop fuel q (byte_ sepb) acc (mkIn (segs_txt l ++ sepb :: R) p d)
+                   = Ok (rev acc ++ res) (mkIn (sepb :: R) p' d) /\ Forall2 (fun s a => seg_ok s a) l res.
+  Proof.
+    intros Hl Hbt. induction Hl as [|s tl Hs Htl IH]; intros fuel acc p Hf.
+    - destruct fuel as [|f]; [lia|]. exists [], p. cbn [segs_txt app separated_loop].
+      rewrite byte_yes. cbn [rest length]. rewrite (eqb_lt (length R)) by lia.
+      destruct (Hbt (p + 1)%N) as (e & i' & E). rewrite E. rewrite app_nil_r. split; [reflexivity|constructor].
+    - destruct fuel as [|f]; [lia|].
+      assert (Et : segs_txt (s :: tl) ++ sepb :: R = sepb :: seg_txt s ++ segs_txt tl ++ sepb :: R).
+      { cbn [segs_txt app]. rewrite <- app_assoc. reflexivity. }
+      rewrite Et in Hf |- *. cbn [separated_loop].
+      rewrite byte_yes. cbn [rest length].
+      rewrite (eqb_lt (length (seg_txt s ++ segs_txt tl ++ sepb :: R))) by lia.
+      destruct (Hs (segs_txt tl ++ sepb :: R) (C_segs tl (sepb :: R) (C_sep R)) (p + 1)%N) as (a & p1 & E & Ha).
+      rewrite E.
+      destruct (IH f (a :: acc) p1) as (res & p2 & E2 & Hres).
+      { cbn [length] in Hf. rewrite app_length in Hf. lia. }
+      exists (a :: res), p2. split.
+      + rewrite E2. cbn [rev]. rewrite <- app_assoc. reflexivity.
+      + constructor; assumption.
+  Qed.
+
+  Lemma separated0_segs_tr s0 l R :
+    seg_parses s0 -> Forall seg_parses l -> bt_after R ->
+    forall p, exists res p', separated0 q (byte_ sepb) (mkIn (seg_txt s0 ++ segs_txt l ++ sepb :: R) p d)
+                             = Ok res (mkIn (sepb :: R) p' d) /\ Forall2 (fun s a => seg_ok s a) (s0 :: l) res.
+  Proof.
+    intros H0 Hl Hbt p.
+    destruct (H0 (segs_txt l ++ sepb :: R) (C_segs l (sepb :: R) (C_sep R)) p) as (a & p1 & E & Ha).
+    destruct (separated_loop_segs_tr l R Hl Hbt (S (length (segs_txt l ++ sepb :: R))) [a] p1 (Nat.lt_succ_diag_r _))
+      as (res & p2 & E2 & Hres).
+    exists (a :: res), p2. unfold separated0. rewrite E. cbn [rest]. rewrite E2. split; [reflexivity|].
+    constructor; assumption.
   Qed.
 
   (* separated0 / separated1 on  t0 sep t1 sep t2 ... *)
